@@ -228,6 +228,18 @@ fn c16_for<F: FElem>(out: &mut Vec<String>, rng: &mut Rng, reps: usize) {
 
 pub fn c16(out: &mut Vec<String>, rng: &mut Rng, tier: &str) {
     let reps = if tier == "thorough" { 400 } else { 60 };
+    // scaling the arithmetic (and paired) interval up to where only the squares still fit
+    for n in [200usize, 1000] {
+        let base: Vec<f64> = (0..n).map(|_| 1.0 + 1.5 * rng.unit()).collect();
+        for (e64, e32) in [(504i32, 56i32), (500, 55), (-500, -60)] {
+            let conf = rand_conf(rng);
+            let k = (2.0f64).powi(e64);
+            out.push(xf_line::<f64>("arith", "scale", &format!("{}", e64), conf, &Data::One(base.clone()), conf, &Data::One(base.iter().map(|x| x * k).collect())));
+            let b32: Vec<f32> = base.iter().map(|x| *x as f32).collect();
+            let k32 = (2.0f32).powi(e32);
+            out.push(xf_line::<f32>("arith", "scale", &format!("{}", e32), conf, &Data::One(b32.clone()), conf, &Data::One(b32.iter().map(|x| x * k32).collect())));
+        }
+    }
     c16_for::<f64>(out, rng, reps);
     c16_for::<f32>(out, rng, reps);
 }
@@ -265,6 +277,28 @@ fn c10_for<F: FElem>(out: &mut Vec<String>, rng: &mut Rng, reps: usize, grid: us
 
 pub fn c10(out: &mut Vec<String>, rng: &mut Rng, tier: &str) {
     let (reps, grid) = if tier == "thorough" { (120, 12) } else { (25, 4) };
+    // samples beyond the t -> z switch (more than 100 000 observations): one-sided(L) against two-sided(2L-1)
+    for prod in ["arith", "geo", "harm", "paired", "unpaired"] {
+        let n = 100_003usize;
+        let mk = |rng: &mut Rng| -> Vec<f64> { (0..n).map(|_| 1.0 + rng.unit()).collect() };
+        let d: Data<f64> = match prod {
+            "paired" | "unpaired" => Data::Two(mk(rng), mk(rng)),
+            _ => Data::One(mk(rng)),
+        };
+        let est = estimate(prod, &d);
+        for l in [0.9f64, 0.6] {
+            for kind in 1..3u64 {
+                let (ca, cb) = (conf_of(kind, l), conf_of(0, 2.0 * l - 1.0));
+                out.push(format!(
+                    "C10 ci2 f {} {} {} {} => {} | {} | {}",
+                    prod, enc_conf(&ca), enc_conf(&cb), enc_data(&d), produce(prod, ca, &d), produce(prod, cb, &d), est
+                ));
+            }
+        }
+        if tier != "thorough" && prod == "harm" {
+            // (the quick tier keeps the line count moderate)
+        }
+    }
     // proportion producers at the edge of their domains (few successes / failures) at very high levels
     for n in [30usize, 100, 1000, 100_000] {
         for k in [10usize, 11, 12, 14] {
